@@ -35,9 +35,13 @@ def progress_set(tier):
             if not size_ok(ds, tier, mac):
                 continue
             alias = mac in ("async_spawn", "try_async_spawn")
-            modes = ["one"] if alias else ["one", "two0", "skip0"]
+            modes = ["one"] if alias else ["one", "two0", "skip0", "cap0", "arrow"]
             for mode in modes:
-                if mode != "one" and (len(ds) < 2 or mac.startswith("try") and mode == "two0"):
+                if mode in ("two0", "skip0") and (len(ds) < 2 or mac.startswith("try") and mode == "two0"):
+                    continue
+                if mode == "arrow" and (mac.startswith("try") or max(ds) < 2):
+                    continue
+                if mode == "cap0" and "spawn" in mac and len(ds) > 2:
                     continue
                 if mode == "two0" and not size_ok(tuple(list(ds) + [ds[0]]), tier, mac):
                     continue
@@ -91,6 +95,7 @@ fn gate(g: usize) -> vrt::Pend { vrt::pend(inp(32 + g % 16) as usize) }
 async fn gated(g: usize, site: &'static str, slot: usize, val: i32) -> i32 { gate(g).await; ev(site, &val); st(slot, val) }
 async fn gated_r(g: usize, site: &'static str, slot: usize, payload: i32, val: i32) -> Result<i32, i32> { gate(g).await; ev(site, &val); st_r(slot, payload, val) }
 async fn gated2(g: usize, g2: usize, site: &'static str, slot: usize, val: i32) -> i32 { gate(g).await; gate(g2).await; ev(site, &val); st(slot, val) }
+async fn gvia<const B: usize, const K: usize, F: std::future::Future<Output = i32>>(f: F) -> i32 { let v = f.await + 1; gate(B * 4 + K).await; ev(&format!("{}.{}.f", B, K), &v); st(B * 4 + K, v) }
 """
 
 
